@@ -163,4 +163,17 @@ theorem preProcess_total : ∀ (ps : PortList), wfPorts ps = true → ∀ (vals 
       simp only [preProcess, hv]; exact ⟨o, ho⟩
 end
 
+theorem construct_ok_iff (vd : Nat → V → Bool) (top : NsA) (ports : PortList) (raw : Items) (parsed : V) :
+    construct vd top ports raw = .ok parsed ↔
+      ∃ items, preProcess ports raw = .ok items ∧
+        validatePort vd "inputs" [] (.ns top ports) (some (.dict true items)) = none ∧ parsed = .dict true items := by
+  unfold construct
+  cases hp : preProcess ports raw with
+  | error e => simp
+  | ok items =>
+    simp only [Except.ok.injEq, exists_eq_left']
+    cases hv : validatePort vd "inputs" [] (.ns top ports) (some (.dict true items)) with
+    | some e => simp
+    | none => simp [eq_comm]
+
 end Ports
